@@ -105,7 +105,7 @@ def check(repo, tier):
     grid.append(('tdvp2site', 3, 2, False))
     for d in ((2, 3) if tier == 'quick' else (2, 3, 4)):
         grid.append(('tdvp', d, 1, True))
-    grid += [('tdvp1site', 2, 2, False, 2), ('tdvp2site', 2, 2, False, 2), ('tdvp2site', 3, 3, False, 1)]
+    grid += [('tdvp1site', 2, 2, False, 2), ('tdvp2site', 2, 2, False, 2), ('tdvp2site', 2, 3, False, 1)]
     for which, d, steps, capped, *nz in grid:
         nz = nz[0] if nz else 0
         entry = f'{ODE}.{which}'
